@@ -56,3 +56,12 @@ Inductive crw_shape :=
 | CrwAlways      (* every non-error return is {Reader: crypto.NewReader(rw, key), Writer: crypto.NewWriter(rw, key)};
                     the only other return is the error return of NewWriter: the cipher exists for EVERY key value *)
 | CrwUnknown (text : string).   (* any other statement / early return (e.g. returning rw itself for some keys) *)
+
+(* the expression handed as tlsOnly to CheckAndEnableTLSServerConnWithTimeout (server/service.go) *)
+Inductive force_expr :=
+| FConfigForce               (* svr.cfg.Transport.TLS.Force, directly or through one local variable *)
+| FUnknown (text : string).  (* anything else, e.g. "... && l != svr.websocketListener" *)
+Inductive sniff_guard := SgNotInternal | SgNone | SgUnknown (text : string).
+Record sniff_site := mk_sniff_site { ss_file : string; ss_func : string; ss_guard : sniff_guard; ss_force : force_expr }.
+(* a call svr.HandleListener(<listener>, <internal>) *)
+Record listener_call := mk_listener_call { lc_listener : string; lc_internal : string }.
